@@ -156,7 +156,9 @@ fn run_inner(sc: &J) -> Result<Option<String>, String> {
                     let r = if k == "a:" { w.append_value_ref(&v) } else { w.unvalidated_append_value_ref(&v) };
                     match r { Ok(_) => appended.push(v), Err(_) => all_ok = false }
                 }
-                if w.flush().is_err() { all_ok = false; }
+                // finish: an explicit flush (default) or just dropping the writer
+                if sc["finish"].as_str() != Some("drop") && w.flush().is_err() { all_ok = false; }
+                drop(w);
                 (all_ok, appended)
             };
             let mut good = Vec::new();
@@ -517,6 +519,51 @@ fn run_inner(sc: &J) -> Result<Option<String>, String> {
             let used_generic = bytes.len() - r2.len();
             if ok_serde != ok_generic { return Ok(Some(format!("the two decoders disagree on {:02x?}: schema-aware deserializer ok={ok_serde}, generic decoder ok={ok_generic}", &bytes[..bytes.len().min(24)]))); }
             if ok_serde && used_serde != used_generic { return Ok(Some(format!("the two decoders consume {used_serde} vs {used_generic} bytes"))); }
+            Ok(None)
+        }
+        // C01: datums written back to back are read back one after another from the SAME reader (exact consumption)
+        "concat_datums" => {
+            let schema = Schema::parse_str(sc["schema"].as_str().ok_or("schema")?).map_err(|e| e.to_string())?;
+            let parts: Vec<Vec<u8>> = sc["datums"].as_array().ok_or("datums")?.iter().map(|d| crate::hex(d.as_str().unwrap_or(""))).collect();
+            let all: Vec<u8> = parts.concat();
+            let rdr = apache_avro::reader::datum::GenericDatumReader::builder(&schema).build().map_err(|e| e.to_string())?;
+            let mut rd = &all[..];
+            let mut used = 0usize;
+            for (i, p) in parts.iter().enumerate() {
+                let want = apache_avro::from_avro_datum(&schema, &mut &p[..], None).map_err(|e| e.to_string())?;
+                match rdr.read_value(&mut rd) {
+                    Ok(v) if v == want => { used += p.len(); if all.len() - rd.len() != used { return Ok(Some(format!("after datum {i} the reader has consumed {} bytes, the datums so far are {used} bytes long", all.len() - rd.len()))); } }
+                    other => return Ok(Some(format!("datum {i} of {} read back as {other:?}", parts.len()))),
+                }
+            }
+            Ok(None)
+        }
+        // C05: every byte string up to `max_len` (default 2) plus a seeded sample of longer ones, under each schema of a
+        // built-in list: no panic (wrapper), no hang (timeout), and Ok means a complete datum (re-encoding = bytes consumed
+        // for canonical inputs is NOT required here, only that re-encoding succeeds)
+        "decode_exhaustive" => {
+            let max_len = sc["max_len"].as_u64().unwrap_or(2) as usize;
+            // a small allocation limit (this is a fresh process): hostile lengths are rejected instead of zero-filling 512 MiB each
+            let _ = apache_avro::util::max_allocation_bytes(sc["limit"].as_u64().unwrap_or(1 << 16) as usize);
+            let schemas = ["\"bytes\"", "\"string\"", "\"long\"", "\"boolean\"", "{\"type\":\"bytes\",\"logicalType\":\"big-decimal\"}",
+                "{\"type\":\"bytes\",\"logicalType\":\"decimal\",\"precision\":5,\"scale\":1}", "{\"type\":\"array\",\"items\":\"null\"}", "{\"type\":\"map\",\"values\":\"int\"}",
+                "[\"null\",\"string\",{\"type\":\"enum\",\"name\":\"e\",\"symbols\":[\"a\",\"b\"]}]", "{\"type\":\"fixed\",\"name\":\"f\",\"size\":2}",
+                "{\"type\":\"string\",\"logicalType\":\"uuid\"}", "{\"type\":\"fixed\",\"name\":\"d\",\"size\":12,\"logicalType\":\"duration\"}"];
+            let mut x = sc["seed"].as_u64().unwrap_or(0).wrapping_add(0x9E3779B97F4A7C15);
+            for st in schemas {
+                let schema = Schema::parse_str(st).map_err(|e| format!("{st}: {e}"))?;
+                let mut inputs: Vec<Vec<u8>> = vec![vec![]];
+                for a in 0..=255u8 { inputs.push(vec![a]); }
+                if max_len >= 2 { for a in 0..=255u8 { for b in 0..=255u8 { inputs.push(vec![a, b]); } } }
+                for _ in 0..3000 { x = x.wrapping_mul(6364136223846793005).wrapping_add(1442695040888963407); let l = 3 + (x >> 60) as usize; inputs.push((0..l).map(|i| (x >> (8 * (i % 8))) as u8 ^ (i as u8).wrapping_mul(37)).collect()); }
+                let dr = apache_avro::reader::datum::GenericDatumReader::builder(&schema).build().map_err(|e| e.to_string())?;
+                for inp in inputs {
+                    let mut rd = &inp[..];
+                    if let Ok(v) = dr.read_value(&mut rd) {
+                        if !v.validate(&schema) { return Ok(Some(format!("schema {st}: input {:02x?} decodes to {v:?} which does not validate", inp))); }
+                    }
+                }
+            }
             Ok(None)
         }
         k => Err(format!("unknown scenario kind {k:?}")),
